@@ -18,6 +18,14 @@
 (*                                queries from the network (NotifyMsg)          *)
 (*   [a |-> "burst", n, m]        the client stops reading, m user events named *)
 (*                                n are emitted, the client reads again         *)
+(*   [a |-> "slow", evs, req]     SLOW READER: the client stops reading, the    *)
+(*                                events evs reach the agent, the request req   *)
+(*                                (stream / stop / members) is sent meanwhile,  *)
+(*                                then the client reads everything: several     *)
+(*                                senders (stream goroutines, the request       *)
+(*                                handler) are in IPCClient.Send while a socket *)
+(*                                write is in flight (net.Pipe: for as long as  *)
+(*                                the reader stalls)                            *)
 (*   [a |-> "close"]              client hangs up; barrier                      *)
 (* An event is [k, n, id]: k = event type, n = name id (0 = none), id unique.   *)
 (*                                                                             *)
@@ -90,8 +98,17 @@ React(c, a) ==
     [] a.a = "burst" -> R(c, <<>>, Deliver(c, [i \in 1..a.m |-> [k |-> "user", n |-> a.n, id |-> a.id + i]]))
     [] OTHER -> R(c, <<>>, <<>>)
 
-ObsOf(r, logs) == [rep |-> r.rep, recs |-> r.recs, logs |-> logs, closed |-> FALSE]
-NoObs == [rep |-> <<>>, recs |-> <<>>, logs |-> {}, closed |-> FALSE]
+\* slow reader: the events first (they are dispatched before the request is sent), then the request
+ReactA(c, a) ==
+  IF a.a = "slow"
+  THEN LET r1 == React(c, [a |-> "emit", evs |-> a.evs])  r2 == React(r1.C, a.req)
+       IN  R(r2.C, r2.rep, r1.recs \o r2.recs)
+  ELSE React(c, a)
+
+\* garbled = objects the client could not read as a header or as the body of the header before it (a body
+\* without header, a header where a body was due, a msgpack decoding error before the connection ended)
+ObsOf(r, logs) == [rep |-> r.rep, recs |-> r.recs, logs |-> logs, closed |-> FALSE, garbled |-> 0]
+NoObs == [rep |-> <<>>, recs |-> <<>>, logs |-> {}, closed |-> FALSE, garbled |-> 0]
 
 ------------------------------------------------------------------------------
 (* Property C25 (header correlation, event streams) as a monitor over action    *)
@@ -112,13 +129,18 @@ NoObs == [rep |-> <<>>, recs |-> <<>>, logs |-> {}, closed |-> FALSE]
 (*                        repeated                                              *)
 (*  C25_ev_missing        (judged at stop / close, not after overflow) a        *)
 (*                        matching event of the registration period not sent    *)
+(*  C25_malformed         the bytes received are not a sequence of msgpack      *)
+(*                        header / header+body pairs                            *)
+(*  C25_reply_dup         more reply headers (non-stream frames) with a Seq     *)
+(*                        than requests were sent with it: a reply that answers *)
+(*                        no request                                            *)
 (*  C25_q_done            a query stream without exactly one final "done"       *)
 (*                        (judged at close) or with a record after it           *)
 (*  C25_q_bogus_record    an ack / response record (nobody answers the queries  *)
 (*                        of these traces; tag closed_channel_zero_value when   *)
 (*                        From is empty).  The query stream itself is modelled  *)
 (*                        in IPCQuery.tla.                                      *)
-NewM == [ reqs |-> {}, regs |-> <<>>, evs |-> <<>>, qs |-> {}, qdone |-> {}, mons |-> {}, bad |-> {}, tags |-> {} ]
+NewM == [ sent |-> <<>>, replied |-> <<>>, reqs |-> {}, regs |-> <<>>, evs |-> <<>>, qs |-> {}, qdone |-> {}, mons |-> {}, bad |-> {}, tags |-> {} ]
 
 EventsOf(a) ==
   CASE a.a = "emit"  -> a.evs
@@ -132,6 +154,11 @@ IsEv(r) == r.k \notin {"done", "ack", "response"}
 MonStep(m, a, o) ==
   LET isReq  == a.a \in {"stream", "monitor", "stop", "members", "query"}
       reqs2  == IF isReq THEN m.reqs \cup {a.seq} ELSE m.reqs
+      sent2  == IF isReq THEN Append(m.sent, a.seq) ELSE m.sent
+      repl2  == m.replied \o [i \in DOMAIN o.rep |-> o.rep[i].seq]
+      NumOf(q, x) == Cardinality({ i \in DOMAIN q : q[i] = x })
+      b8     == IF o.garbled > 0 THEN {"C25_malformed"} ELSE {}
+      b9     == IF \E i \in DOMAIN repl2 : NumOf(repl2, repl2[i]) > NumOf(sent2, repl2[i]) THEN {"C25_reply_dup"} ELSE {}
       evs2   == m.evs \o EventsOf(a)
       okRep  == isReq /\ \E i \in DOMAIN o.rep : o.rep[i].seq = a.seq /\ o.rep[i].err = 0
       \* a stream acknowledged in this line is registered AFTER the events of earlier lines
@@ -182,23 +209,29 @@ MonStep(m, a, o) ==
       \* no node ever answers the queries of this family of traces: every ack / response record is unreal
       unreal == { i \in DOMAIN qrecs : qrecs[i].k # "done" }
       b7     == IF unreal # {} THEN {"C25_q_bogus_record"} ELSE {}
-  IN [ reqs |-> reqs2, regs |-> regs2, evs |-> evs2, qs |-> qs2,
+  IN [ sent |-> sent2, replied |-> repl2, reqs |-> reqs2, regs |-> regs2, evs |-> evs2, qs |-> qs2,
        tags |-> m.tags \cup (IF unreal # {} /\ \A i \in unreal : qrecs[i].n = 0 THEN {"closed_channel_zero_value"} ELSE {}),
        qdone |-> (IF a.a = "query" THEN m.qdone \ {a.seq} ELSE m.qdone) \cup doneNow,
-       mons |-> mons2, bad |-> m.bad \cup b1 \cup b2 \cup b3 \cup b4 \cup b5 \cup b6 \cup b7 ]
+       mons |-> mons2, bad |-> m.bad \cup b1 \cup b2 \cup b3 \cup b4 \cup b5 \cup b6 \cup b7 \cup b8 \cup b9 ]
+
+\* a slow-reader step is judged as its two parts: the events (nothing is received meanwhile), then the request
+\* together with everything that was received once the client read again
+MonAct(m, a, o) ==
+  IF a.a = "slow" THEN MonStep(MonStep(m, [a |-> "emit", evs |-> a.evs], NoObs), a.req, o)
+  ELSE MonStep(m, a, o)
 
 ------------------------------------------------------------------------------
 (* Actions *)
 Hints(r, a) == [w |-> Len(r.rep) + Len(r.recs),
-                reg |-> IF a.a \in {"stream", "monitor"} /\ r.rep[1].err = 0 THEN 1 ELSE 0]
+                reg |-> IF (a.a \in {"stream", "monitor"} \/ (a.a = "slow" /\ a.req.a = "stream")) /\ r.rep[1].err = 0 THEN 1 ELSE 0]
 
 Do(a) ==
   /\ steps < MaxSteps /\ last.a # "close"
-  /\ LET r == React(C, a) IN
+  /\ LET r == ReactA(C, a) IN
        /\ C' = r.C
        /\ obs' = ObsOf(r, IF r.C.mon # 0 THEN {r.C.mon} ELSE {})     \* log lines may come at any time
        /\ last' = a @@ Hints(r, a)
-       /\ M' = MonStep(M, a, obs')
+       /\ M' = MonAct(M, a, obs')
   /\ steps' = steps + 1
 
 Close ==
@@ -215,6 +248,8 @@ Bursts == { <<Ev("user", 1, 1)>>, <<Ev("user", 2, 1)>>, <<Ev("member-join", 0, 1
             <<Ev("user", 1, 1), Ev("user", 2, 2), Ev("user", 1, 3)>>,
             <<Ev("user", 1, 1), Ev("query", 1, 2), Ev("member-join", 0, 3)>> }
 
+Bursts3 == <<Ev("user", 1, 1), Ev("query", 1, 2), Ev("member-join", 0, 3)>>
+
 Requests ==
   { [a |-> "stream", seq |-> s, f |-> f] : s \in SeqIds, f \in Filters } \cup
   { [a |-> "monitor", seq |-> s] : s \in SeqIds } \cup
@@ -222,9 +257,15 @@ Requests ==
   { [a |-> "members", seq |-> s] : s \in SeqIds } \cup
   { [a |-> "query", seq |-> s, n |-> n, id |-> Id] : s \in SeqIds, n \in {1, 2} }
 
+SlowReqs ==
+  { [a |-> "stream", seq |-> s, f |-> f] : s \in SeqIds, f \in Filters } \cup
+  { [a |-> "stop", seq |-> s, stop |-> t] : s \in SeqIds, t \in SeqIds } \cup
+  { [a |-> "members", seq |-> s] : s \in SeqIds }
+
 Init == C = NewC /\ M = NewM /\ obs = NoObs /\ last = [a |-> "init"] /\ steps = 0
 Next == \/ \E a \in Requests : Do(a)
         \/ \E evs \in Bursts : Do([a |-> "emit", evs |-> evs])
+        \/ \E q \in { x \in SlowReqs : x.a = "stream" => x.f \in {1, 8} } : Do([a |-> "slow", evs |-> Bursts3, req |-> q])
         \/ Close
 Spec == Init /\ [][Next]_vars
 
